@@ -401,6 +401,9 @@ func (t *termer) term(v ssa.Value) string {
 	defer func() { t.depth-- }()
 	switch x := v.(type) {
 	case *ssa.Parameter:
+		if b, ok := paramBind[x]; ok && b != ssa.Value(x) {
+			return t.term(b) // visiting a helper on behalf of a caller: the argument it was given
+		}
 		return "param:" + x.Name()
 	case *ssa.FreeVar:
 		// a captured variable is a cell of the parent; describe it by name
@@ -758,4 +761,56 @@ func resultValues(r *ssa.Return) []ssa.Value {
 		}
 	}
 	return out
+}
+
+
+// isPure: fn (a module function with a body) only reads: no store other than to its own locals, no map update or
+// delete, no send, go, defer or panic, and every call it makes is to a pure module function, a builtin len/cap, or a
+// standard-library function from a small list of value-only helpers. Conservative: anything unknown is impure.
+func (c *Ctx) isPure(fn *ssa.Function, seen map[*ssa.Function]bool) bool {
+	if fn == nil || len(fn.Blocks) == 0 {
+		return false
+	}
+	if seen[fn] {
+		return true
+	}
+	seen[fn] = true
+	pure := true
+	allInstrs(fn, func(in ssa.Instruction) {
+		if !pure {
+			return
+		}
+		switch x := in.(type) {
+		case *ssa.Store:
+			if _, local := x.Addr.(*ssa.Alloc); !local {
+				pure = false
+			}
+		case *ssa.MapUpdate, *ssa.Send, *ssa.Go, *ssa.Defer, *ssa.Panic, *ssa.RunDefers:
+			pure = false
+		case *ssa.Call:
+			cc := &x.Call
+			if isBuiltinCall(cc, "len") || isBuiltinCall(cc, "cap") {
+				return
+			}
+			f := cc.StaticCallee()
+			if f == nil {
+				pure = false
+				return
+			}
+			if f.Pkg != nil && strings.HasPrefix(f.Pkg.Pkg.Path(), modPath) {
+				if !c.isPure(f, seen) {
+					pure = false
+				}
+				return
+			}
+			if f.Pkg != nil {
+				switch f.Pkg.Pkg.Path() {
+				case "strings", "strconv", "unicode", "unicode/utf8", "math":
+					return
+				}
+			}
+			pure = false
+		}
+	})
+	return pure
 }
